@@ -23,6 +23,7 @@ import (
 // C03: mode composition truth table on the real caddy module.
 
 var c03Modes = []string{"", "prefer_ocsp", "prefer_crl", "ocsp_only", "crl_only", "disabled"}
+
 // "revoked-by-second-responder-after-a-slow-first": the certificate names two responders; the first takes 90 seconds (by
 // the validator's clock) and then sends an error page, the second says revoked at once
 var c03OCSP = []string{"no-aia", "good", "revoked", "unavailable", "unusable-answer", "revoked-by-second-responder-after-a-slow-first"}
